@@ -5,7 +5,7 @@ open Lean
 namespace NQ.Drv
 open NQ.Tr
 
-def errName : Err → String
+def transpErrName : Err → String
   | .assertion => "AssertionError"
   | .runtime => "RuntimeError"
   | .value => "ValueError"
@@ -25,7 +25,7 @@ def handleTranspile (op : String) (j : Json) : Option Json :=
     pure (match transpile cfg S with
       | .ok out => Json.mkObj [("ok", instrsJson out), ("ser", instrsJson (serialise out)),
           ("idx", ofOpt ofNats (indexChanges cfg S)), ("qstatic", Json.bool q)]
-      | .error e => Json.mkObj [("err", Json.str (errName e)), ("qstatic", Json.bool q)])
+      | .error e => Json.mkObj [("err", Json.str (transpErrName e)), ("qstatic", Json.bool q)])
   else none
 
 end NQ.Drv
